@@ -294,9 +294,35 @@ func (s *Sim) breakConf() (string, string) {
 	c := s.conf.Clone()
 	leaves := c.Leaves()
 	if len(leaves) == 0 {
-		return "partitions:\n  - name: default\n    queues:\n      - name: notroot\n", "top queue is not root"
+		return "partitions:\n  - name: default\n    queues:\n      - name: root\n        queues:\n          - name: \"not a name!\"\n", "invalid queue name"
 	}
-	switch r.Intn(6) {
+	switch r.Intn(8) {
+	case 6: // sparse vectors: the child exceeds the parent on one type and also names types the parent leaves open
+		for _, p := range c.allQueues() {
+			q := c.Find(p)
+			if p != "root" && len(q.Children) > 0 {
+				q.Max = Res{"memory": 3}
+				q.Children[0].Max = Res{"memory": 9, "vcore": 2, "gpu": 1}
+				q.Children[0].Guar = nil
+				return c.YAML(), "child maximum above parent maximum (sparse)"
+			}
+		}
+		q := c.Find(pick(r, leaves))
+		q.Max = Res{"vcore": 2}
+		q.Guar = Res{"vcore": 5, "memory": 1}
+		return c.YAML(), "guaranteed above maximum (sparse)"
+	case 7: // max applications growing downwards
+		for _, p := range c.allQueues() {
+			q := c.Find(p)
+			if p != "root" && len(q.Children) > 0 {
+				q.MaxApps = 2
+				q.Children[0].MaxApps = 5
+				return c.YAML(), "child max applications above parent"
+			}
+		}
+		q := c.Find(pick(r, leaves))
+		q.Limits = []LimitSpec{{Users: []string{"alice"}, MaxApps: 0}}
+		return c.YAML(), "limit without any setting"
 	case 0: // guaranteed above maximum
 		q := c.Find(pick(r, leaves))
 		q.Max = Res{"vcore": 2}
@@ -327,25 +353,31 @@ func (s *Sim) breakConf() (string, string) {
 		q.Limits = []LimitSpec{{Users: []string{"alice"}, MaxRes: Res{"memory": 40}}}
 		return c.YAML(), "user limit above queue maximum"
 	default:
-		return "partitions:\n  - name: default\n    queues:\n      - name: notroot\n", "top queue is not root"
+		return "partitions:\n  - name: default\n    queues:\n      - name: root\n        queues:\n          - name: \"not a name!\"\n", "invalid queue name"
 	}
 }
 
 func (s *Sim) genReload() (Op, bool) {
 	if s.faultOn("reload_invalid") && s.rng.Bool(0.3) {
 		raw, why := s.breakConf()
-		if _, err := configs.LoadSchedulerConfigFromByteArray([]byte(raw)); err != nil {
-			s.faults["reload_invalid"]++
-			return Op{Kind: "reload", Raw: raw, Fault: "invalid: " + why}, true
-		}
-		s.notes = append(s.notes, "configuration meant to be invalid was accepted by validation ("+why+")")
+		s.faults["reload_invalid"]++
+		return Op{Kind: "reload", Raw: raw, Fault: "invalid: " + why}, true
 	}
 	for try := 0; try < 8; try++ {
 		c := s.mutateConf()
 		if c.YAML() == s.conf.YAML() {
 			continue
 		}
+		if msg := c.RuleCheck(); msg != "" {
+			// the change broke a hierarchy rule: worth sending only to see it refused
+			if s.faultOn("reload_invalid") && s.rng.Bool(0.5) {
+				s.faults["reload_invalid"]++
+				return Op{Kind: "reload", Conf: c, Fault: "invalid: rule " + strings.SplitN(msg, ":", 2)[0]}, true
+			}
+			continue
+		}
 		if err := c.Validate(); err != nil {
+			s.probe("reload_validator_stricter_than_rules")
 			continue
 		}
 		s.faults["reload_valid"]++
@@ -422,6 +454,32 @@ func (s *Sim) oracleC16(op Op, evs []SIEvent) {
 		}
 		if !lr.validatorOK && lr.accepted {
 			s.violate("C15", "rejected-config-loaded", "", "validation rejects the configuration (%s) but the running scheduler loaded it", op.Fault)
+		}
+		if op.Conf != nil && lr.validatorOK {
+			if msg := op.Conf.RuleCheck(); msg != "" {
+				s.violate("C15", "accepted-config-breaks-rule", strings.SplitN(msg, ":", 2)[0], "validation accepts a configuration that breaks a hierarchy rule: %s", msg)
+			} else {
+				s.probe("accepted_config_rule_checked")
+			}
+		}
+		if why, ok := strings.CutPrefix(op.Fault, "invalid: "); ok && lr.validatorOK && op.Conf == nil {
+			switch why {
+			case "fixed rule to a missing queue without create", "limit without any setting":
+				// not among the hierarchy rules the statement lists
+				s.probe("unlisted_rule_break_accepted")
+			default:
+				// the document breaks a documented hierarchy rule by construction
+				f := strings.Fields(why)
+				s.violate("C15", "invalid-config-accepted", f[0]+"-"+f[1], "validation accepts a configuration that breaks a hierarchy rule (%s)", why)
+			}
+		}
+		// the verdict does not depend on anything but the document: ask again
+		for i := 0; i < 3; i++ {
+			_, again := configs.LoadSchedulerConfigFromByteArray([]byte(lr.text))
+			if (again == nil) != lr.validatorOK {
+				s.violate("C15", "validation-not-deterministic", "", "the same document was accepted=%v and then accepted=%v by validation", lr.validatorOK, again == nil)
+				break
+			}
 		}
 		s.probe("config_loaded")
 		if !lr.accepted {
